@@ -215,6 +215,8 @@ type zzStep struct {
 	reqNames []string
 	// context value the step writes
 	ctxValue string
+	// explicit metadata.name the function gives desired resource i ("" = none)
+	names []string
 }
 
 type zzCall struct {
@@ -284,6 +286,15 @@ func (r *zzRunner) RunFunction(_ context.Context, name string, req *fnv1.RunFunc
 	for i, want := range st.desired {
 		if want {
 			res := zzDesiredResource(zzResNames[i])
+			if i < len(st.names) && st.names[i] != "" {
+				m := res.GetResource().AsMap()
+				m["metadata"] = map[string]any{"name": st.names[i]}
+				ns, err := structpb.NewStruct(m)
+				if err != nil {
+					panic(err)
+				}
+				res.Resource = ns
+			}
 			if i < len(st.ready) {
 				res.Ready = st.ready[i]
 			}
